@@ -410,7 +410,7 @@ func init() {
 		icptOK := true
 		for r.Receive() {
 			f := r.Frame()
-			frames = append(frames, frameStr(f))
+			frames = append(frames, rxString(r)) // frame, error-frame flag and error details of every delivery
 			n++
 			if len(icpt) != n || icpt[n-1] != f {
 				icptOK = false
